@@ -62,6 +62,7 @@ NV_PermitPath      == ~(pc[C] = "r_await" /\ permit /\ gen = cgen[C])
 NV_GenerationPath  == ~(pc[C] = "r_await" /\ gen # cgen[C])
 NV_CancelForwards  == \A c \in Cons : ~(pc[c] = "c_sleep" /\ ~Asleep(c) /\ wby[c] = "one" /\ loc[c].phase < CCancel)
 NV_CancelRegistered == \A c \in Cons : ~(pc[c] = "c_sleep" /\ Asleep(c) /\ loc[c].phase < CCancel)
+NV_PartialMany     == \A p \in Prods : ~(loc[p].mleft > 0 /\ \E i \in 1..Len(received) : ProdOf(received[i]) = p)
 NV_TwoWaiters      == Len(waiting) < 2
 NV_OtherTookIt     == \A c \in Cons : ~(pc[c] = "pop_lt" /\ loc[c].ph = tail /\ Len(received) > 0 /\ ~closed)
 NV_RecheckNonEmpty == ~(pc[C] = "empty" /\ head # tail)
